@@ -98,7 +98,8 @@ StepVerdict(o, k, cur, s) ==
       loc   == Nav(cur, Schema, s.path)
       ex    == Expect(cur, Schema, s, dn)
       tk    == TargetKind(cur, loc, s.op) \o AddFieldKind(cur, loc, s)
-      lastk == s.path[Len(s.path)].k
+      lastk == IF Len(s.path) < 2 THEN s.path[Len(s.path)].k
+               ELSE s.path[Len(s.path) - 1].k \o "." \o s.path[Len(s.path)].k
       cls   == IF s.op \in {"delete", "move"} THEN "none" ELSE ex.why
       base(kind) == "patch|" \o kind \o "|" \o s.op \o "|" \o tk \o "|" \o lastk \o "|" \o
                     (IF s.op \in {"delete", "move"} THEN "-" ELSE
